@@ -75,8 +75,8 @@ var c19HistRegexProgs = []string{
 
 func c19HistRegexInputs() []run.TV {
 	var out []run.TV
-	for _, s := range []string{"XI xi x\nXG xg", "aG\nag AI ai a"} {
-		for _, re := range []string{"x", "xi", "xg", "xgi", "xn", "xx", "x.", "x$", "a", "ag", "ai", "a.", "(?i)x", "^x", "xs", "xl", "xp"} {
+	for _, s := range []string{"XI xi x\nXG xg IX ix GX gx", "aG\nag AI ai a IA ia GA ga"} {
+		for _, re := range []string{"x", "xi", "xg", "xgi", "xn", "xx", "x.", "x$", "a", "ag", "ai", "a.", "(?i)x", "^x", "xs", "xl", "xp", "ix", "gx", "gix", "nx", "ia", "ga", "sx", "igx"} {
 			for _, f := range []any{nil, "", "i", "g", "gi", "x", "n", "s", "l", "p", "ig", "xi"} {
 				out = append(out, run.TV{V: []any{s, re, f}})
 			}
